@@ -58,6 +58,6 @@ def handle (j : Json) : Json :=
     | .run s ig => Json.mkObj [("outcome", "run"), ("section", sectionJson s), ("ignore", J.ofStrs (ig.map String.ofList)),
                                ("eff", Json.arr (limits.map fun k => Json.arr #[Json.str (String.ofList k), match effOpt s lang k with | some v => valJson v | none => Json.null]).toArray)]
   Json.mkObj [("new", render (resolve true c name cli lang limits)), ("old", render (resolve false c name cli lang limits)),
-              ("broken", someConsultedBroken c)]
+              ("broken", someConsultedBroken c), ("ignoreInEffect", J.ofStrs ((ignoreInEffect true c).map String.ofList))]
 
 end ThaiLintModel.C05
